@@ -201,7 +201,7 @@ def run(tier):
         types.append(rg.N(nm))
         for (_, f) in rg.slots():
             types.append(f(rg.N(nm)))
-    nsample = 300 if tier == "quick" else 5000
+    nsample = 300 if tier == "quick" else 30000
     for _ in range(nsample):
         types.append(rg.random_type(rnd, rnd.randint(maxd + 1, 6), named=("Named", rnd.choice(AWKWARD_NAMES))))
     # de-duplicate by rendering
@@ -248,7 +248,7 @@ def run(tier):
     v.extra["sampled_deeper_expressions"] = nsample
     # validate M against real serde_json on this run's sample
     from .. import serde_oracle
-    sv = serde_oracle.validate_M([t for (_, t) in types], rnd, 120 if tier == "quick" else 600)
+    sv = serde_oracle.validate_M([t for (_, t) in types], rnd, 120 if tier == "quick" else 1500)
     v.extra["serde_validation"] = sv
     if sv.get("disagreements"):
         v.inconclusive.append("reference model M disagrees with real serde_json on %d sample types: %s" % (len(sv["disagreements"]), sv["disagreements"][:3]))
